@@ -43,19 +43,25 @@ func (e event) Coq() string {
 	if e.hint >= 0 {
 		h = fmt.Sprintf("(Some %d)", e.hint)
 	}
+	return fmt.Sprintf("KEv %d %s %s", e.i, h, e.obs)
+}
+
+// groupCoq renders one scheduler step: its observations and the table read after it
+func groupCoq(evs []event) string {
+	it := make([]string, len(evs))
 	sn := "None"
-	if e.hasSn {
-		it := make([]string, len(e.snap))
-		for k, r := range e.snap {
-			it[k] = fmt.Sprintf("(%d, %d, %s, %s)", r.idx, r.tag, GZ(int64(r.readers)), gB(r.excl))
+	for k, e := range evs {
+		it[k] = e.Coq()
+		if e.hasSn {
+			sn = "(Some " + gSnap(e.snap) + ")"
 		}
-		sn = "(Some [" + strings.Join(it, "; ") + "])"
 	}
-	return fmt.Sprintf("KEv %d %s %s %s", e.i, h, e.obs, sn)
+	return "([" + strings.Join(it, "; ") + "], " + sn + ")"
 }
 
 type result struct {
 	events   []event
+	groups   [][]event
 	picks    []int
 	viol     *Violation
 	spins    int
@@ -154,18 +160,36 @@ func (w *world) step(res *result, a *actorT, prev []row) ([]row, error) {
 		return nil, err
 	}
 	group := []*actorT{a}
+	dead := a.status == stDead
 	for _, b := range w.actors {
-		if b != a && b.status == stSpinning {
+		if !dead && b != a && b.status == stSpinning {
 			if err := w.recheck(b); err != nil {
 				return nil, err
 			}
 			group = append(group, b)
+			dead = b.status == stDead
 		}
+	}
+	if dead {
+		// Release / UnlockExclusively panic with the service lock held: nothing can be read any more
+		var g []event
+		for _, b := range group {
+			o, h := w.observe(b)
+			g = append(g, event{i: b.idx, hint: h, obs: o})
+			if b.status == stDead {
+				res.fail("panic", fmt.Sprintf("actor %d: %v", b.idx, b.lastPark.panicv))
+			}
+		}
+		res.groups = append(res.groups, g)
+		res.picks = append(res.picks, a.idx)
+		res.steps++
+		return prev, nil
 	}
 	cur, err := w.snapshot()
 	if err != nil {
 		return nil, err
 	}
+	var g []event
 	for k, b := range group {
 		o, h := w.observe(b)
 		ev := event{i: b.idx, hint: h, obs: o}
@@ -175,8 +199,9 @@ func (w *world) step(res *result, a *actorT, prev []row) ([]row, error) {
 		if b.status == stSpinning {
 			res.spins++
 		}
-		res.events = append(res.events, ev)
+		g = append(g, ev)
 	}
+	res.groups = append(res.groups, g)
 	w.oracle(res, prev, cur, group)
 	res.picks = append(res.picks, a.idx)
 	res.steps++
@@ -200,6 +225,7 @@ func runCase(pre int, progs [][]Proc, picks []int, choose func(n int) int, maxSt
 	if err != nil {
 		return nil, err
 	}
+	defer w.close()
 	res := &result{}
 	prev, err := w.snapshot()
 	if err != nil {
@@ -212,8 +238,10 @@ func runCase(pre int, progs [][]Proc, picks []int, choose func(n int) int, maxSt
 			return err
 		}
 		prev = cur
-		if a.status == stDead {
-			dead = true
+		for _, b := range w.actors {
+			if b.status == stDead {
+				dead = true
+			}
 		}
 		return nil
 	}
@@ -312,9 +340,9 @@ func mkCase(rp Replay, choose func(n int) int, maxSteps int, stream string) (*Ca
 		}
 		progs[i] = "[" + strings.Join(it, "; ") + "]"
 	}
-	evs := make([]string, len(res.events))
-	for i, e := range res.events {
-		evs[i] = e.Coq()
+	evs := make([]string, len(res.groups))
+	for i, g := range res.groups {
+		evs[i] = groupCoq(g)
 	}
 	out := rp
 	out.Picks = res.picks
